@@ -26,7 +26,13 @@ func codeFor(ty an.Type, cache gen.Cache) []gen.Declaration {
 	case *an.Basic, *an.Time:
 		return []gen.Declaration{codeForBasicOrTime(ty)}
 	case *an.Named:
-		return codeFor(ty.Underlying, cache)
+		out := codeFor(ty.Underlying, cache)
+		if isRecursiveNamed(ty) {
+			// the definition refers to the type by its name
+			fn := functionName(ty)
+			out = append(out, gen.Declaration{ID: fn, Content: fmt.Sprintf(vNamed, fn, functionName(ty.Underlying))})
+		}
+		return out
 	case *an.Enum:
 		return []gen.Declaration{codeForEnum(ty)}
 	case *an.Map:
@@ -41,6 +47,18 @@ func codeFor(ty an.Type, cache gen.Cache) []gen.Declaration {
 		panic(an.ExhaustiveTypeSwitch)
 	}
 }
+
+// validator of a named type defined in terms of itself : delegates to its definition
+const vNamed = `
+	CREATE OR REPLACE FUNCTION %s (data jsonb)
+		RETURNS boolean
+		AS $$
+	BEGIN
+		RETURN %s(data);
+	END;
+	$$
+	LANGUAGE 'plpgsql'
+	IMMUTABLE;`
 
 func nameFromKind(kind an.BasicKind) string {
 	switch kind {
@@ -57,11 +75,7 @@ func nameFromKind(kind an.BasicKind) string {
 
 // typeID returns an identifier for `ty`
 // usable in function names
-func typeID(ty an.Type) string { return typeIDRec(ty, make(map[*an.Named]bool)) }
-
-// typeIDRec implements typeID; [seen] cuts the recursion for named types
-// defined in terms of themselves, like type Tree []Tree
-func typeIDRec(ty an.Type, seen map[*an.Named]bool) string {
+func typeID(ty an.Type) string {
 	switch ty := ty.(type) {
 	case *an.Pointer:
 		panic("pointers not handled by the SQL generator")
@@ -74,21 +88,49 @@ func typeIDRec(ty an.Type, seen map[*an.Named]bool) string {
 		if ty.Len >= 0 {
 			as += fmt.Sprintf("%d_", ty.Len)
 		}
-		return as + typeIDRec(ty.Elem, seen)
+		return as + typeID(ty.Elem)
 	case *an.Map:
-		return "map_" + typeIDRec(ty.Elem, seen) // JSON map keys are always strings
-	case *an.Named: // shortcut to underlying
-		if seen[ty] { // recursive definition : use the name
+		return "map_" + typeID(ty.Elem) // JSON map keys are always strings
+	case *an.Named:
+		// a type defined in terms of itself, like type Tree []Tree,
+		// is always identified by its name
+		if isRecursiveNamed(ty) {
 			return idFromNamed(ty.Type().(*types.Named))
 		}
-		seen[ty] = true
-		defer delete(seen, ty)
-		return typeIDRec(ty.Underlying, seen)
+		return typeID(ty.Underlying) // shortcut to underlying
 	case *an.Struct, *an.Enum, *an.Union: // these types are always named
 		return idFromNamed(ty.Type().(*types.Named))
 	default:
 		panic(an.ExhaustiveTypeSwitch + fmt.Sprintf(": %T", ty))
 	}
+}
+
+// isRecursiveNamed reports whether the definition of `ty` refers
+// to `ty` through arrays, maps and other named types only
+func isRecursiveNamed(ty *an.Named) bool {
+	target := ty.Type()
+	seen := make(map[types.Type]bool)
+	var visit func(t an.Type) bool
+	visit = func(t an.Type) bool {
+		switch t := t.(type) {
+		case *an.Array:
+			return visit(t.Elem)
+		case *an.Map:
+			return visit(t.Elem)
+		case *an.Named:
+			if t.Type() == target {
+				return true
+			}
+			if seen[t.Type()] {
+				return false
+			}
+			seen[t.Type()] = true
+			return visit(t.Underlying)
+		default:
+			return false
+		}
+	}
+	return visit(ty.Underlying)
 }
 
 func idFromNamed(typ *types.Named) string {
